@@ -12,6 +12,11 @@ import (
 
 // ---- contract file structure ----
 
+type MapStoreRule struct {
+	Type   string
+	Clause *Clause
+}
+
 type Clause struct {
 	Label string   // [C06.min]
 	Props []string // property ids (from label prefix or block props)
@@ -26,6 +31,7 @@ type LoopSpec struct {
 	Invariants []*Clause
 	Modifies   []string
 	Ghosts     []*GhostSet
+	After      []*Clause // asserted at the end of every iteration only
 }
 
 type Contract struct {
@@ -56,6 +62,7 @@ type Contract struct {
 	ImmutableFields []string // never written once the object is shared
 	NoCallOut       []string
 	MapInserts      map[string][]*Clause
+	MapStores       []MapStoreRule // function level: obligation at every store into a map of the given type
 	ChanPubs        map[string][]*Clause
 	Published       map[string][]string
 	Line            int
@@ -264,6 +271,13 @@ func parseContracts(path string) ([]*Contract, []*SpecDef, error) {
 				cur.MapInserts = map[string][]*Clause{}
 			}
 			cur.MapInserts[f] = append(cur.MapInserts[f], last)
+		case "mapstore":
+			// mapstore <map type without spaces> [label] <expr over at (the key), value, prev, had and the locals>: checked at every store
+			// into a map of that type executed by this function (inlined closures included); prev is the value
+			// stored under the key before (the zero value if had is false)
+			f, r2 := splitWord(rest)
+			last = mk(r2)
+			cur.MapStores = append(cur.MapStores, MapStoreRule{Type: f, Clause: last})
 		case "chanpub":
 			// chanpub <chanfield> <expr over self>: close requires it, a completed receive may assume it
 			f, r2 := splitWord(rest)
@@ -352,6 +366,10 @@ func parseContracts(path string) ([]*Contract, []*SpecDef, error) {
 			case "invariant":
 				last = mk(r3)
 				ls.Invariants = append(ls.Invariants, last)
+			case "afterbody":
+				// an assertion at the end of every iteration (back edge): not assumed at the header, not checked on entry
+				last = mk(r3)
+				ls.After = append(ls.After, last)
 			case "modifies":
 				ls.Modifies = append(ls.Modifies, strings.Fields(r3)...)
 				last = nil
@@ -488,7 +506,7 @@ func parseContracts(path string) ([]*Contract, []*SpecDef, error) {
 		c.Ensures = append(cp(src.Ensures), c.Ensures...)
 		c.Lets = append(cp(src.Lets), c.Lets...)
 		for n, l := range src.Loops {
-			nl := &LoopSpec{Ordinal: n, Invariants: cp(l.Invariants)}
+			nl := &LoopSpec{Ordinal: n, Invariants: cp(l.Invariants), After: cp(l.After)}
 			for _, g := range l.Ghosts {
 				nl.Ghosts = append(nl.Ghosts, &GhostSet{Name: g.Name, Index: cp([]*Clause{g.Index})[0], Value: cp([]*Clause{g.Value})[0]})
 			}
@@ -497,6 +515,7 @@ func parseContracts(path string) ([]*Contract, []*SpecDef, error) {
 			}
 			if ex := c.Loops[n]; ex != nil {
 				nl.Invariants = append(nl.Invariants, ex.Invariants...)
+				nl.After = append(nl.After, ex.After...)
 			}
 			c.Loops[n] = nl
 		}
@@ -534,6 +553,9 @@ func parseContracts(path string) ([]*Contract, []*SpecDef, error) {
 				all = append(all, g.Index, g.Value)
 			}
 		}
+		for _, l := range c.Loops {
+			all = append(all, l.After...)
+		}
 		for _, l := range c.Ranges {
 			all = append(all, l.Invariants...)
 			for _, g := range l.Ghosts {
@@ -545,6 +567,9 @@ func parseContracts(path string) ([]*Contract, []*SpecDef, error) {
 		}
 		for _, ls := range c.MapInserts {
 			all = append(all, ls...)
+		}
+		for _, r := range c.MapStores {
+			all = append(all, r.Clause)
 		}
 		for _, ls := range c.ChanPubs {
 			all = append(all, ls...)
